@@ -36,6 +36,16 @@ fn operand_positions(inst: &AInst) -> Vec<(usize, K, usize)> {
 
 fn undeclared_value(rng: &mut Rng, k: K) -> u32 {
     let d = db();
+    // values the LIVE enumeration declares but the frozen reference does not (a grammar update): undeclared by
+    // the pinned grammar, and the likeliest numbers for the library to accept wrongly
+    if decls::kind_class(k) == 0 && rng.chance(1, 2) {
+        if let Some(e) = decls::ENUMS.iter().find(|e| e.name == crate::gram::kind_name(k)) {
+            let extra: Vec<u32> = e.variants.iter().map(|(_, v)| *v).filter(|v| !d.enum_declared(k, *v)).collect();
+            if !extra.is_empty() {
+                return *rng.pick(&extra);
+            }
+        }
+    }
     for _ in 0..50 {
         let cand = match decls::kind_class(k) {
             0 => {
